@@ -142,6 +142,8 @@ Qed.
 Lemma Phi_with_stk s m t a b : Phi (with_stk s m t) a b = Phi s a b. Proof. reflexivity. Qed.
 Lemma Phi_with_names s m a b : Phi (with_names s m) a b = Phi s a b. Proof. reflexivity. Qed.
 Lemma Phi_with_cstor s m a b : Phi (with_cstor s m) a b = Phi s a b. Proof. reflexivity. Qed.
+Lemma Phi_with_voted s m a b : Phi (with_voted s m) a b = Phi s a b. Proof. reflexivity. Qed.
+Lemma nonneg_with_voted s m : nonneg s -> nonneg (with_voted s m). Proof. exact (fun H => H). Qed.
 Lemma nonneg_with_stk s m t : nonneg s -> nonneg (with_stk s m t). Proof. exact (fun H => H). Qed.
 Lemma nonneg_with_names s m : nonneg s -> nonneg (with_names s m). Proof. exact (fun H => H). Qed.
 Lemma nonneg_with_cstor s m : nonneg s -> nonneg (with_cstor s m). Proof. exact (fun H => H). Qed.
@@ -186,6 +188,15 @@ Section Gov.
     destruct (send_balance_spec _ _ _ _ _ E Ha Hr Hs) as (I1&I2&_&_&_&_&_&_&_&_&P1&P2&_).
     destruct (Phi_send s _ _ _ _ _ E Ha Hr Hs) as [_ Q].
     unfold post. rewrite Phi_with_stk. repeat split; auto.
+  Qed.
+
+  Lemma exec_vote_post bno s t sd rc s' sd' rc' :
+    exec_vote cfg bno s t sd rc = Some (s', sd', rc') -> pre s sd rc -> post s sd rc s' sd' rc'.
+  Proof.
+    unfold exec_vote. intros H (Hn&Hs&Hr).
+    destruct (stk s !! a_id sd) as [[staked w]|]; [|discriminate].
+    destruct (staked =? 0); [discriminate|]. destruct (_ && _); [discriminate|].
+    injection H as <- <- <-. unfold post. rewrite Phi_with_voted, Phi_with_stk. repeat split; auto.
   Qed.
 End Gov.
 
